@@ -106,7 +106,7 @@ def check_uniqueness_constraint(m, kind=None):
                 
                 value = getattr(inst, name)
                 isnull = value is None
-                isnull |= (ty == 'UNIQUE_ID' and not value)
+                isnull |= (ty.upper() == 'UNIQUE_ID' and not value)
                 if isnull:
                     res += 1 
                     logger.warning('%s.%s is part of an identifier and is null' 
